@@ -809,6 +809,23 @@ def rule_display(ctx, f):
     ctx.floor("C08-SIB-display", n, 5, "Display impls of operand types")
 
 
+def rule_exact_eq(ctx, f):
+    ctx.rule("C08-SIB-eq", "the operand types whose equality chooses a shorthand (`v` / `y` when a control point EQUALS the current / end point) are compared exactly: "
+             "PartialEq for Point is the derived, field-by-field one (the reader rebuilds the omitted operand as exactly that point)")
+    n = 0
+    for ty in ("content::Point",):
+        b = f.impl_method("std::cmp::PartialEq", ty, "eq")
+        if b is None:
+            ctx.lost("C08-SIB-eq", "PartialEq for " + ty)
+            continue
+        n += 1
+        derived = any(m.startswith("derive(PartialEq") for m in (b.get("mac") or []))
+        arith = [st[2][1] for i, j, st in F.stmts(b) if st[0] == "assign" and st[2][0] == "binop" and st[2][1] in ("Sub", "Lt", "Le", "Gt", "Ge", "Add", "Mul", "Div")]
+        ctx.check(derived and not arith, "C08-SIB-eq", ty + "#exact", "%s is compared with a hand-written PartialEq (%s): two different points can compare equal, the serializer then drops a "
+                  "control point that the reader puts back as another value" % (ty, ", ".join(sorted(set(arith))) or "not derived"), b["span"], detail="#[derive(PartialEq)]")
+    ctx.floor("C08-SIB-eq", n, 1, "operand types compared by the serializer")
+
+
 def rule_parts(ctx, f):
     ctx.rule("C08-G3", "a content stream split into several parts is parsed as ONE stream: Content::operations joins the decoded parts and parses once, after the "
              "loop over the parts (operands and their operator may sit in different parts, 7.8.2)")
@@ -846,6 +863,7 @@ def run(ctx):
     rule_enum_cast(ctx, f, ast)
     rule_display(ctx, f)
     rule_parts(ctx, f)
+    rule_exact_eq(ctx, f)
     rule_drain(ctx, f)
     return ctx.finish(
         "Static analysis of the syntax trees of the operator dispatcher and the serializer (astx), joined with MIR facts for placeholder types "
